@@ -653,8 +653,9 @@ fn main() {
         let id = toks[0];
         let mut obs: Vec<String> = Vec::with_capacity(toks.len());
         if toks.len() > 1 && toks[1] == "C" {
-            // sequential C-API case on the process-global machine
+            // sequential C-API case on the process-global machine, freshly constructed for each case
             clock::set_ns(0);
+            verif_global_fresh();
             for tok in &toks[2..] {
                 let r = catch_unwind(AssertUnwindSafe(|| capi_op(tok)));
                 match r {
@@ -673,6 +674,7 @@ fn main() {
             clock::set_ns(0);
             let seed = hx(toks[2]);
             let version = hx(toks[3]) as u8;
+            verif_global_fresh();
             unsafe {
                 dmd_init(version);
             }
